@@ -43,6 +43,7 @@ type c34Scenario struct {
 	Tasks    []c34Task `json:"tasks"`
 	ReadBuf  int       `json:"read_buf"`
 	CancelMs int       `json:"cancel_ms,omitempty"` // engine B: HandshakeContext cancelled after this many ms (0 = background context)
+	Renego   int       `json:"renegotiation,omitempty"` // client Config.Renegotiation (0 never, 1 once, 2 freely)
 	Tape     []int     `json:"tape,omitempty"`
 }
 
@@ -67,6 +68,7 @@ func genC34(seed uint64, tier string) any {
 		sc.Net.Window = []int{64, 512, 4096, 20000}[r.Intn(4)]
 	}
 	sc.ReadBuf = []int{1, 7, 64, 1024, 20000}[r.Intn(5)]
+	sc.Renego = r.Pick([]int{2, 1, 1})
 	if sc.Engine == "B" && r.Chance(1, 4) {
 		sc.CancelMs = []int{1, 5, 50, 500}[r.Intn(4)]
 	}
@@ -89,7 +91,10 @@ func genC34(seed uint64, tier string) any {
 		for m := 0; m < nm; m++ {
 			t := c34Task{Side: side, Kind: "misc"}
 			for k := r.Range(1, 6); k > 0; k-- {
-				op := []string{"state", "state", "handshake", "setdl", "setrdl", "setwdl", "sleep", "closewrite", "close"}[r.Pick([]int{4, 4, 3, 2, 2, 2, 3, 1, 1})]
+				op := []string{"state", "state", "handshake", "setdl", "setrdl", "setwdl", "sleep", "closewrite", "close", "hello_request", "key_update_kill"}[r.Pick([]int{4, 4, 3, 2, 2, 2, 3, 1, 1, 2, 4})]
+				if op == "hello_request" && (side != 1 || sc.Version == vTLS13) || op == "key_update_kill" && sc.Version != vTLS13 {
+					op = "handshake"
+				}
 				t.Ops = append(t.Ops, c34Op{Op: op, DelayMs: []int{1, 20, 300, 3000}[r.Intn(4)]})
 			}
 			sc.Tasks = append(sc.Tasks, t)
@@ -228,6 +233,7 @@ type c34Side struct {
 	writes    []c34WriteRec
 	closedAt  int // number of writes recorded when the first local close/closewrite was issued (-1 = never)
 	inFlight  int  // Write calls currently executing on this side
+	timedOut  string // error text of the first Write that timed out on this side
 	abrupt    bool // a Close was issued while a Write was executing, or a Write failed: the stream may legitimately end mid-payload
 	hsErr     error
 	nextSeq   map[int]int
@@ -250,8 +256,11 @@ func execC34(t *testing.T, scAny any, keepLog bool) *Outcome {
 		ecfg := EndCfg{MinVersion: sc.Version, MaxVersion: sc.Version, Suites: []uint16{sc.Suite}, ForceSuites: true, KeyKind: sc.Key, NoTickets: sc.Seed%3 == 0}
 		scfg := serverConfig(ecfg, s, run.R.Derive("srv-rand"))
 		ccfg := clientConfig(ecfg, s, run.R.Derive("cli-rand"))
+		ccfg.Renegotiation = tls.RenegotiationSupport(sc.Renego)
+		nets := [2]*kit.Conn{}
 		cn, sn := s.Pipe("c", "s", sc.Net.params(), sc.Net.params())
 		sides := [2]*c34Side{{conn: tls.Client(cn, ccfg), closedAt: -1, nextSeq: map[int]int{}}, {conn: tls.Server(sn, scfg), closedAt: -1, nextSeq: map[int]int{}}}
+		nets[0], nets[1] = cn, sn
 		// every blocking call has a deadline: the property's precondition
 		base := 20 * time.Second
 		for side := 0; side < 2; side++ {
@@ -281,6 +290,7 @@ func execC34(t *testing.T, scAny any, keepLog bool) *Outcome {
 		}
 		wid := 0
 		torn := ""
+		ackAfterTimeout := ""
 		for ti, tk := range sc.Tasks {
 			tk := tk
 			sd := sides[tk.Side]
@@ -303,9 +313,20 @@ func execC34(t *testing.T, scAny any, keepLog bool) *Outcome {
 						if err == nil && n == len(p) && (sd.closedAt < 0 || idx < sd.closedAt) {
 							sd.writes[idx].OK = true
 						}
+						if err == nil && sd.timedOut != "" {
+							// documented: "After a Write has timed out, the TLS state is corrupt and all future writes will return the same error."
+							ackAfterTimeout = fmt.Sprintf("side %d: Write of %d bytes returned success after an earlier Write had timed out (%s)", tk.Side, len(p), sd.timedOut)
+						}
 						if err != nil {
 							if n > 0 || sd.closedAt < 0 {
 								sd.abrupt = true // e.g. a write deadline expired in the middle of a payload
+							}
+							if ne, ok := err.(interface{ Timeout() bool }); ok && ne.Timeout() && sd.closedAt < 0 {
+								// an application that retries after a timeout: move the deadline and go on writing
+								sd.timedOut = err.Error()
+								o.count("probe.write_timed_out_then_retried", 1)
+								sd.conn.SetWriteDeadline(s.Now().Add(10 * time.Second))
+								continue
 							}
 							return
 						}
@@ -323,7 +344,26 @@ func execC34(t *testing.T, scAny any, keepLog bool) *Outcome {
 					case "setrdl":
 						sd.conn.SetReadDeadline(s.Now().Add(time.Duration(op.DelayMs+500) * time.Millisecond))
 					case "setwdl":
-						sd.conn.SetWriteDeadline(s.Now().Add(time.Duration(op.DelayMs+500) * time.Millisecond))
+						d := time.Duration(op.DelayMs+500) * time.Millisecond
+						if op.DelayMs == 1 {
+							d = time.Microsecond // a deadline that has practically expired when the next Write starts
+						}
+						sd.conn.SetWriteDeadline(s.Now().Add(d))
+					case "hello_request":
+						// the server asks for a renegotiation: an (encrypted) HelloRequest handshake message
+						if sd.conn.ConnectionState().HandshakeComplete {
+							sides[0].abrupt, sides[1].abrupt = true, true // the connection will not end with an orderly close
+							sd.conn.WriteRecord(22, []byte{0, 0, 0, 0})
+							o.count("fault.hello_request_sent", 1)
+						}
+					case "key_update_kill":
+						// TLS 1.3: ask the peer to update its keys, then drop the transport so that its reply cannot be written
+						if sd.conn.ConnectionState().HandshakeComplete {
+							sides[0].abrupt, sides[1].abrupt = true, true
+							sd.conn.WriteRecord(22, []byte{24, 0, 0, 1, 1})
+							nets[tk.Side].Kill(false)
+							o.count("fault.key_update_then_transport_closed", 1)
+						}
 					case "closewrite":
 						if sd.closedAt < 0 {
 							sd.closedAt = len(sd.writes)
@@ -352,6 +392,9 @@ func execC34(t *testing.T, scAny any, keepLog bool) *Outcome {
 		if vsync.LockOps == 0 {
 			fmt.Println("HARNESS-ERROR C34 engine A needs the sync shim overlay (bin/check builds it); package tls is using the real sync package")
 			os.Exit(2)
+		}
+		if o.Fail == nil && ackAfterTimeout != "" {
+			o.Fail = Failf("c34.ack_after_timeout", "a Write succeeded after an earlier Write on the connection had timed out", "%s", ackAfterTimeout)
 		}
 		if o.Fail == nil && torn != "" {
 			o.Fail = Failf("c34.torn", "ConnectionState observed inconsistent handshake state", "%s", torn)
@@ -450,7 +493,7 @@ func init() {
 		Real:   []string{"tls.Conn Read/Write/Handshake/ConnectionState/SetDeadline/SetReadDeadline/SetWriteDeadline/CloseWrite/Close with their real locking (handshakeMutex, in/out halfConn mutexes, activeCall, handshakeStatus, Config.mutex)"},
 		Stub:   []string{"sync.Mutex/RWMutex and sync/atomic of package tls are replaced by the simulator-aware shim (same semantics, scheduling points added)", "transport", "clock", "entropy"},
 		Assume: []string{"one reader per direction (the order of bytes between concurrent Reads is not defined by the API)", "every blocking call has a deadline, as the property's precondition says", "interleavings are controlled at lock/atomic/transport granularity, not between plain memory accesses"},
-		FaultKinds: []string{"probe.lock_ops", "probe.contended_lock_ops", "probe.multi_enabled_steps", "probe.clean_eof_streams", "net.write_blocked_on_window", "net.read_deadline_expired", "net.write_deadline_expired", "net.short_read",
+		FaultKinds: []string{"probe.lock_ops", "probe.contended_lock_ops", "probe.multi_enabled_steps", "probe.clean_eof_streams", "fault.hello_request_sent", "fault.key_update_then_transport_closed", "net.write_blocked_on_window", "net.read_deadline_expired", "net.write_deadline_expired", "net.short_read",
 			"probe.raceB_runs", "probe.raceB_cancelled_handshakes"},
 		NotInjected: "wire corruption is C25/C32; here the adversary is the schedule. No storage.",
 		Gen:         genC34, New: func() any { return &c34Scenario{} }, Exec: execC34, Shrink: shrinkC34,
